@@ -8,6 +8,7 @@ import Verif.Model.States
 import Verif.Model.Tokenizer
 import Verif.Model.ExprParser
 import Verif.Model.Value
+import Verif.Model.FloatConv
 import Verif.Model.Funcs
 import Verif.Model.Calc
 import Verif.Model.Pipeline
@@ -400,11 +401,23 @@ def doOp (args : List String) : String :=
     | _, _ => "bad-op"
   | _ => "bad-op"
 
+/-- tie of `Model/FloatConv.lean` (the bit-level conversions the C07 float theorems are about) to the conversions
+the model computes with: checked on every value a `conv` line carries -/
+def convBitsOk : V → Bool
+  | .int i | .long i => (i64ToF64 i).toBits.toNat == i64ToF64Bits i.toInt
+  | .double d =>
+    match f64BitsToInt d.toBits.toNat with
+    | some k => (f64ToI64 d).toInt == k
+    | none => f64ToI64 d == minI64
+  | _ => true
+
 def doConv (args : List String) : String :=
   match args with
   | [m, a, t] =>
     match decV a, t.toNat? with
-    | some va, some tn => encR (convert (parseMgr m) va (VT.ofCode tn))
+    | some va, some tn =>
+      if convBitsOk va then encR (convert (parseMgr m) va (VT.ofCode tn))
+      else "model-inconsistent: Model/FloatConv.lean disagrees with the float conversions of Model/Value.lean"
     | _, _ => "bad-op"
   | _ => "bad-op"
 
